@@ -518,6 +518,12 @@ def extract_fn(unit: str, file: str, item: str, mode: str, contracts, canary: bo
 
     # ---------------- body mode
     blo, bhi = it.body_open_tok, it.body_close_tok
+    if c and c.bodysig and c.stubsig:
+        # rule R9:sig -- the signature is the hand-written one of the sidecar (the iterator types of the shim library in place of
+        # `impl Iterator`); every other edit of the signature is dropped
+        edits[:] = [e_ for e_ in edits if e_[0] >= body_open.start]
+        edits.append((it.start, body_open.start, c.stubsig + ' ', rw('R9:sig')))
+        info.rewrites.append('R9:sig(hand-written signature: shim iterator types)')
     # macros (R5)
     for (s, e, r, rule) in _macro_edits(sf, blo, bhi):
         edits.append((s, e, r, rw(rule)))
@@ -711,11 +717,11 @@ def extract_fn(unit: str, file: str, item: str, mode: str, contracts, canary: bo
                     elif tx_ == ';' and d_ == 0:
                         return k_
             return None
-        if 'unwrap_or_else' in c.inlines:
+        for comb in [x for x in c.inlines if x in ('unwrap_or_else', 'is_some_and')]:
           with _Txn():
-            hits = [k for k in range(blo, bhi) if toks[k].text == 'unwrap_or_else' and toks[k - 1].text == '.' and toks[k + 1].text == '(' and toks[k + 2].text in ('|', '||')]
+            hits = [k for k in range(blo, bhi) if toks[k].text == comb and toks[k - 1].text == '.' and toks[k + 1].text == '(' and toks[k + 2].text in ('|', '||')]
             if not hits:
-                raise LostAnchor('%s: @inline unwrap_or_else: no call found' % fn_label)
+                raise LostAnchor('%s: @inline %s: no call found' % (fn_label, comb))
             for k in hits:
                 close = _match_fwd(k + 1)
                 bar2 = None
@@ -724,10 +730,10 @@ def extract_fn(unit: str, file: str, item: str, mode: str, contracts, canary: bo
                         bar2 = w
                         break
                 if close is None or bar2 is None:
-                    raise LostAnchor('%s: @inline unwrap_or_else: unsupported closure' % fn_label)
+                    raise LostAnchor('%s: @inline %s: unsupported closure' % (fn_label, comb))
                 body_txt = sf.text[toks[bar2].end:toks[close].start]
                 if re.search(r'\breturn\b|\?', body_txt):
-                    raise LostAnchor('%s: @inline unwrap_or_else: closure body has `return` or `?`' % fn_label)
+                    raise LostAnchor('%s: @inline %s: closure body has `return` or `?`' % (fn_label, comb))
                 pat = sf.text[toks[k + 2].end:toks[bar2].start].strip()
                 # receiver: a postfix expression ending right before the `.`
                 r = k - 2
@@ -735,7 +741,7 @@ def extract_fn(unit: str, file: str, item: str, mode: str, contracts, canary: bo
                     if toks[r].text in (')', ']'):
                         r = _match_back(r)
                         if r is None:
-                            raise LostAnchor('%s: @inline unwrap_or_else: unsupported receiver' % fn_label)
+                            raise LostAnchor('%s: @inline %s: unsupported receiver' % (fn_label, comb))
                         r -= 1
                         if toks[r + 1].text == '(' and (toks[r].kind == 'ident' or toks[r].text == '>'):
                             continue
@@ -746,12 +752,16 @@ def extract_fn(unit: str, file: str, item: str, mode: str, contracts, canary: bo
                         continue
                     if toks[r].kind == 'ident':
                         break
-                    raise LostAnchor('%s: @inline unwrap_or_else: unsupported receiver' % fn_label)
+                    raise LostAnchor('%s: @inline %s: unsupported receiver' % (fn_label, comb))
                 edits.append((toks[r].start, toks[r].start, 'match ', rw('R31')))
-                edits.append((toks[k - 1].start, toks[bar2].end, ' { Ok(vp_v) => vp_v, Err(%s) =>' % pat, rw('R31')))
-                edits.append((toks[close].start, toks[close].end, ' }', rw('R31')))
+                if comb == 'unwrap_or_else':
+                    edits.append((toks[k - 1].start, toks[bar2].end, ' { Ok(vp_v) => vp_v, Err(%s) =>' % pat, rw('R31')))
+                    edits.append((toks[close].start, toks[close].end, ' }', rw('R31')))
+                else:   # Option::is_some_and(|v| BODY)  ==  match o { Some(v) => BODY, None => false }
+                    edits.append((toks[k - 1].start, toks[bar2].end, ' { Some(%s) => {' % pat, rw('R31')))
+                    edits.append((toks[close].start, toks[close].end, ' }, None => false }', rw('R31')))
                 inlined_closure_bars.add(k + 2)
-                info.rewrites.append('R31:unwrap_or_else inlined')
+                info.rewrites.append('R31:%s inlined' % comb)
         for (op_, meth) in c.opassigns:
           with _Txn():
             hits = [k for k in range(blo, bhi) if toks[k].kind == 'punct' and toks[k].text == op_ and toks[k - 1].kind == 'ident']
